@@ -402,6 +402,83 @@ theorem king_keep (fits : MoveFits b w m) (K : Nat) (hK : K = WK ∨ K = BK)
 
 end keep
 
+/-! ### the clocks -/
+
+theorem castleRook_clocks (g : Game) (r f t : Nat) : (castleRook g r f t).halfMoves = g.halfMoves ∧ (castleRook g r f t).fullMoves = g.fullMoves := by
+  unfold castleRook; simp only [Game.setBB]; split <;> exact ⟨rfl, rfl⟩
+
+theorem postSpecial_clocks (g : Game) (m : Move) : (postSpecial g m).halfMoves = g.halfMoves ∧ (postSpecial g m).fullMoves = g.fullMoves := by
+  unfold postSpecial
+  simp only
+  split
+  · exact ⟨rfl, rfl⟩
+  · split
+    · split
+      · exact castleRook_clocks _ _ _ _
+      · split
+        · exact castleRook_clocks _ _ _ _
+        · split
+          · exact castleRook_clocks _ _ _ _
+          · split
+            · exact castleRook_clocks _ _ _ _
+            · exact ⟨rfl, rfl⟩
+    · exact ⟨rfl, rfl⟩
+
+theorem preCapture_clocks (g : Game) (m : Move) : (preCapture g m).halfMoves = g.halfMoves ∧ (preCapture g m).fullMoves = g.fullMoves := by
+  unfold preCapture
+  by_cases hc : m.isCapture = true
+  · rw [if_pos hc]
+    by_cases he : m.isEnpassant = true
+    · rw [if_pos he]; split <;> exact ⟨rfl, rfl⟩
+    · rw [if_neg he]
+      generalize hg0 : (if g.white = true then { g with blackOcc := unsetBit g.blackOcc m.toSq }
+               else { g with whiteOcc := unsetBit g.whiteOcc m.toSq }) = g0
+      have hw0 : g0.halfMoves = g.halfMoves ∧ g0.fullMoves = g.fullMoves := by rw [← hg0]; split <;> exact ⟨rfl, rfl⟩
+      simp only
+      rcases captureLoop_scan g0 (if g.white = true then BP else WP) m.toSq 5 0 with ⟨p, hp1, _⟩ | ⟨hn, _⟩
+      · rw [hp1]; exact hw0
+      · rw [hn]; exact hw0
+  · rw [if_neg hc]; exact ⟨rfl, rfl⟩
+
+/-- the half-move clock (a `u8`) restarts on pawn moves and captures, the full-move number (a `u16`) grows after Black -/
+theorem makeCore_clocks (g g' : Game) (m : Move) (hmk : makeCore g m = some g') :
+    g'.halfMoves = (if m.piece == WP || m.piece == BP || m.isCapture then 0 else (g.halfMoves + 1) % 256) ∧
+    g'.fullMoves = (if g.white then g.fullMoves else (g.fullMoves + 1) % 65536) := by
+  unfold makeCore at hmk
+  simp only at hmk
+  split at hmk
+  · exact absurd hmk (by simp)
+  · injection hmk with hmk
+    subst hmk
+    have hpre : (makePre g m).halfMoves = g.halfMoves ∧ (makePre g m).fullMoves = g.fullMoves ∧ (makePre g m).white = g.white := by
+      unfold makePre
+      obtain ⟨a, b'⟩ := preCapture_clocks (preMove (preKeys g) m) m
+      have k : (preKeys g).halfMoves = g.halfMoves ∧ (preKeys g).fullMoves = g.fullMoves := by unfold preKeys; split <;> exact ⟨rfl, rfl⟩
+      exact ⟨a.trans k.1, b'.trans k.2, (makePre_wc g m).1⟩
+    obtain ⟨p1, p2, p3⟩ := hpre
+    generalize makePre g m = g2 at p1 p2 p3
+    unfold makePost
+    obtain ⟨s1, s2⟩ := postSpecial_clocks (postClock (postOcc g2 m) m) m
+    obtain ⟨sw, _⟩ := postSpecial_wc (postClock (postOcc g2 m) m) m
+    have ho : (postOcc g2 m).halfMoves = g2.halfMoves ∧ (postOcc g2 m).fullMoves = g2.fullMoves ∧ (postOcc g2 m).white = g2.white := by
+      unfold postOcc; split <;> exact ⟨rfl, rfl, rfl⟩
+    have hc : (postClock (postOcc g2 m) m).halfMoves = (if m.piece == WP || m.piece == BP || m.isCapture then 0 else ((postOcc g2 m).halfMoves + 1) % 256) ∧
+        (postClock (postOcc g2 m) m).fullMoves = (postOcc g2 m).fullMoves ∧ (postClock (postOcc g2 m) m).white = (postOcc g2 m).white := by
+      unfold postClock; split <;> exact ⟨rfl, rfl, rfl⟩
+    generalize postSpecial (postClock (postOcc g2 m) m) m = g5 at s1 s2 sw
+    have he : (postEp g5 m).halfMoves = g5.halfMoves ∧ (postEp g5 m).fullMoves = g5.fullMoves ∧ (postEp g5 m).white = g5.white := by
+      unfold postEp; split
+      · split <;> exact ⟨rfl, rfl, rfl⟩
+      · exact ⟨rfl, rfl, rfl⟩
+    have hs : ∀ x : Game, (postSide x).halfMoves = x.halfMoves ∧ (postSide x).fullMoves = (if x.white then x.fullMoves else (x.fullMoves + 1) % 65536) := by
+      intro x; unfold postSide; simp only
+      cases x.white <;> exact ⟨rfl, rfl⟩
+    obtain ⟨h1, h2⟩ := hs (postRights (postEp g5 m) m)
+    rw [h1, h2]
+    show (postEp g5 m).halfMoves = _ ∧ (if (postEp g5 m).white = true then (postEp g5 m).fullMoves else ((postEp g5 m).fullMoves + 1) % 65536) = _
+    rw [he.1, he.2.1, he.2.2, s1, s2, sw, hc.1, hc.2.1, hc.2.2, ho.1, ho.2.1, ho.2.2, p1, p2, p3]
+    exact ⟨rfl, rfl⟩
+
 /-- a castling right that survives the move: neither end of the move is a home square of that right -/
 theorem right_survives (c x y k : Nat) (h : (c &&& (x &&& y)) &&& 2^k ≠ 0) :
     c &&& 2^k ≠ 0 ∧ x.testBit k = true ∧ y.testBit k = true := by
